@@ -29,8 +29,14 @@ package main
 //	        number of times: every running goroutine is preempted wherever it is and queued
 //	        behind the others
 //
+// In the configurations with Fail > 0 every Fail-th iteration starts with a ToPack of a
+// datagram that fails in Read or Process (poolfail.go concFailing), recovered like a server
+// loop does; nothing else changes: the acquisitions that follow must be blank.
+//
 // Keys: <Type>.<Field>:pool-residue/concurrent   acquired pack not blank
 //
+//	<Type>.<Field>:pool-residue/after-failed-read   … and it holds values of a datagram whose
+//	                                         ToPack failed
 //	<Type>.<Field>:pool-object-shared        field changed while the pack was owned
 //	<Type>.Write:pool-object-shared          bytes written by the owner are not its fields
 //	<Type>:pool-object-shared/memory         the object's memory changed while owned although
@@ -65,9 +71,15 @@ type concCfg struct {
 	Procs int
 	Gs    int
 	Mode  string // tight | yield | stw
+	Fail  int    // > 0: every Fail-th iteration of a goroutine starts with a ToPack that fails (poolfail.go)
 }
 
-func (g concCfg) String() string { return fmt.Sprintf("P=%d,G=%d,%s", g.Procs, g.Gs, g.Mode) }
+func (g concCfg) String() string {
+	if g.Fail > 0 {
+		return fmt.Sprintf("P=%d,G=%d,%s,failed-ToPack/%d", g.Procs, g.Gs, g.Mode, g.Fail)
+	}
+	return fmt.Sprintf("P=%d,G=%d,%s", g.Procs, g.Gs, g.Mode)
+}
 
 // ownValue builds a value of type t that carries tag/num and is not a blank value. ok=false:
 // the type has no such value the harness can build (the field is then filled with its zero
@@ -247,13 +259,17 @@ func foreign(v reflect.Value) string {
 	if len(s) > 4 && s[0] == 'g' && s[3] == '/' {
 		return "the value goroutine " + s[1:3] + " stores"
 	}
+	if isFailedReadValue(v) {
+		return "a value of a datagram whose ToPack failed"
+	}
 	return ""
 }
 
 type concStats struct {
 	acquires, blankFast, blankSlow, recheckFast, recheckSlow int64
 	handovers, writes, yields, fieldsCompared                int64
-	_                                                        [56]byte // one goroutine's counters per cache line pair
+	failedReads, failedReadsOK                               int64
+	_                                                        [40]byte // one goroutine's counters per cache line pair
 }
 
 type concRun struct {
@@ -264,6 +280,7 @@ type concRun struct {
 	bad     atomic.Int32 // findings so far in this run: the run stops early after a few
 	slow    bool         // compare through reflect only (race flavour)
 	wrEvery int
+	failing []*failedDatagram // read-only: datagrams on which ToPack fails (cfg.Fail > 0)
 }
 
 // raceLogged: the race detector of this process has written a report (race flavour; the
@@ -289,6 +306,19 @@ func (rn *concRun) owner(o *concOwner, r *vlib.Rand, st *concStats, addrs map[ui
 		if rn.slow && o.gid == 1 && it&31 == 31 && raceLogged(rn.c) {
 			rn.bad.Store(4) // the race detector has reported: more reports of the same thing only cost time
 			return
+		}
+		if len(rn.failing) > 0 && (it+o.gid)%rn.cfg.Fail == 0 {
+			// a datagram that fails in Read or Process: the goroutine recovers and carries on, as
+			// a UDP server loop does; what the failed call leaves in the pool is seen by the
+			// acquisitions that follow (this goroutine's or another's)
+			fd := rn.failing[(it/rn.cfg.Fail+o.gid*5)%len(rn.failing)]
+			var q udp.UdpPack
+			if pn := vlib.Catch(func() { q = udp.ToPack(k.Code, fd.dv, fd.b) }); pn == nil && q != nil {
+				st.failedReadsOK++ // a fresh pack fails on it, the pooled one did not: not judged
+				udp.ClosePack(q)
+			} else {
+				st.failedReads++
+			}
 		}
 		ver := concVersions[(o.gid+it)%len(concVersions)]
 		p := udp.CreatePack(k.Code, ver)
@@ -324,6 +354,10 @@ func (rn *concRun) owner(o *concOwner, r *vlib.Rand, st *concStats, addrs map[ui
 			st.blankFast++
 		} else {
 			st.blankSlow++
+			kind := "/concurrent"
+			if len(rn.failing) > 0 && k.carriesFailedReadValue(e) {
+				kind = "/after-failed-read"
+			}
 			if got := p.GetVersion(); got != ver {
 				rn.fail(k.Name+".Ver:pool-residue/concurrent",
 					fmt.Sprintf("%s acquired with CreatePack(%d, %d) has version %d when its new owner looks at it", k.Name, k.Code, ver, got), ctx(nil))
@@ -336,7 +370,7 @@ func (rn *concRun) owner(o *concOwner, r *vlib.Rand, st *concStats, addrs map[ui
 					if who != "" {
 						who = " (" + who + ")"
 					}
-					rn.fail(k.Name+"."+f.Name+":pool-residue/concurrent",
+					rn.fail(k.Name+"."+f.Name+":pool-residue"+kind,
 						fmt.Sprintf("%s acquired from the pool by goroutine %d while other goroutines use the pool holds %s = %s%s; a new pack has %s", k.Name, o.gid, f.Name, render(got), who, render(k.fresh.FieldByIndex(f.Index))),
 						ctx(map[string]interface{}{"field": f.Name, "value": render(got), "fresh": render(k.fresh.FieldByIndex(f.Index))}))
 				}
@@ -492,6 +526,8 @@ func (rn *concRun) run(seedLabel string) {
 		t.writes += s.writes
 		t.yields += s.yields
 		t.fieldsCompared += s.fieldsCompared
+		t.failedReads += s.failedReads
+		t.failedReadsOK += s.failedReadsOK
 		for a := range addrs[g] {
 			seen[a]++
 		}
@@ -517,6 +553,16 @@ func (rn *concRun) run(seedLabel string) {
 	c.Count("pool_conc_owner_yields", t.yields)
 	c.Count("pool_conc_stop_the_world", stws)
 	c.Count("pool_conc_runs", 1)
+	if cfg.Fail > 0 {
+		c.Count("pool_conc_failed_decodes", t.failedReads)
+		c.Count("pool_conc_failed_decodes_"+k.Name, t.failedReads)
+		c.Count("pool_conc_failed_decodes_mode_"+cfg.Mode, t.failedReads)
+		c.Count("pool_conc_failed_decode_succeeded_on_pooled_pack", t.failedReadsOK)
+		c.Count("pool_conc_acquires_in_runs_with_failed_decodes", t.acquires)
+		for _, fd := range rn.failing {
+			c.SetAdd("pool_conc_failed_decode_sites", k.Name+"@"+fd.site+"@"+fd.stage)
+		}
+	}
 	c.Max("max_pool_conc_goroutines", int64(cfg.Gs))
 	c.SetAdd("pool_conc_types_covered", k.Name)
 	c.SetAdd("pool_conc_configs", cfg.String())
@@ -537,13 +583,15 @@ func concConfigs(np int, race bool) []concCfg {
 		np = 2
 	}
 	if race {
-		return []concCfg{{2, 8, "yield"}, {4, 16, "tight"}, {np, 4 * np, "yield"}}
+		return []concCfg{{2, 8, "yield", 0}, {4, 16, "tight", 0}, {np, 4 * np, "yield", 0}, {4, 16, "tight", 8}}
 	}
 	cf := []concCfg{
-		{1, 4, "tight"}, {1, 8, "tight"},
-		{2, 8, "tight"}, {2, 8, "stw"}, {2, 8, "yield"},
-		{4, 16, "stw"}, {4, 16, "yield"},
-		{np, 4, "tight"}, {np, 4 * np, "tight"}, {np, 4 * np, "stw"}, {np, 4 * np, "yield"},
+		{1, 4, "tight", 0}, {1, 8, "tight", 0},
+		{2, 8, "tight", 0}, {2, 8, "stw", 0}, {2, 8, "yield", 0},
+		{4, 16, "stw", 0}, {4, 16, "yield", 0},
+		{np, 4, "tight", 0}, {np, 4 * np, "tight", 0}, {np, 4 * np, "stw", 0}, {np, 4 * np, "yield", 0},
+		// the slice with failed decodes among the acquisitions
+		{1, 4, "tight", 8}, {2, 8, "yield", 8}, {np, 4 * np, "tight", 16},
 	}
 	return cf
 }
@@ -556,10 +604,11 @@ func poolConcSection(c *vlib.Ctx) {
 		}
 	}
 	race := c.Flavour == "race"
-	planned := int64(0)
+	planned, plannedFailed := int64(0), int64(0)
 	c.Section("pool-conc", true, func() {
 		np := runtime.GOMAXPROCS(0)
 		cfgs := concConfigs(np, race)
+		failing := map[string][]*failedDatagram{}
 		perRun := c.N(480000, 16000000) // acquisitions per (type, configuration), over all goroutines
 		if race {
 			perRun = c.N(20000, 400000)
@@ -581,6 +630,18 @@ func poolConcSection(c *vlib.Ctx) {
 				if cfg.Mode == "yield" {
 					rn.iters /= 4 // a yielding owner is slower; what matters there is the number of hand-overs
 				}
+				if cfg.Fail > 0 {
+					if failing[k.Name] == nil {
+						failing[k.Name] = k.concFailing(k.probeFailInfo())
+					}
+					rn.failing = failing[k.Name]
+					if len(rn.failing) == 0 {
+						c.SetAdd("failed_decode_types_without_failing_input", k.Name)
+						continue // no input of this type fails: the run would repeat a plain one
+					}
+					rn.iters /= 2
+					plannedFailed += int64(rn.iters / cfg.Fail * cfg.Gs)
+				}
 				planned += int64(rn.iters * cfg.Gs)
 				rn.run(fmt.Sprintf("pool-conc/%s/%d", k.Name, ci))
 			}
@@ -589,5 +650,8 @@ func poolConcSection(c *vlib.Ctx) {
 	if c.Only == "" && planned > 0 {
 		c.Floor("pool_conc_acquires", planned/10, c.Counter("pool_conc_acquires"))
 		c.Floor("pool_conc_not_my_last_object", planned/1000, c.Counter("pool_conc_not_my_last_object"))
+		if plannedFailed > 0 {
+			c.Floor("pool_conc_failed_decodes", plannedFailed/10, c.Counter("pool_conc_failed_decodes"))
+		}
 	}
 }
